@@ -1,6 +1,7 @@
 //! cwe_conf: conformance harness.  Generates inputs, calls the REAL cwe_checker code, records
 //! ndjson traces for TLC.  It never decides a property.
 mod enc;
+mod guard;
 mod irenc;
 mod pcodegen;
 mod elfgen;
